@@ -226,6 +226,24 @@ func registerModels(e *Engine) {
 		if s.IsConst() {
 			return BoolC(regexp.MustCompile(re).MatchString(s.S))
 		}
+		if l, ok := goRegexToSMT(re); ok {
+			return InRe(s, l)
+		}
+		panic(abortf("regexp %q on symbolic text", re))
+	}
+	m["regexp.MatchString"] = func(x *Exec, fr *frame, a []Value) Value {
+		re := x.constStr(a[0], "regexp pattern")
+		s := x.term(a[1])
+		if s.IsConst() {
+			ok, err := regexp.MatchString(re, s.S)
+			if err != nil {
+				return TupleV{FalseT, x.errorC(err.Error())}
+			}
+			return TupleV{BoolC(ok), NilIface}
+		}
+		if l, ok := goRegexToSMT(re); ok {
+			return TupleV{InRe(s, l), NilIface}
+		}
 		panic(abortf("regexp %q on symbolic text", re))
 	}
 
@@ -233,6 +251,8 @@ func registerModels(e *Engine) {
 	registerCodecModels(e)
 	registerCryptoModels(e)
 	registerTimeModels(e)
+	registerSyncModels(e)
+	registerStringModels(e)
 }
 
 func InReOrConst(s *Term, class string) *Term {
